@@ -3,6 +3,7 @@ import NibabelModel.Lemmas.C10_Checks
 import NibabelModel.Lemmas.C10_Gen
 import NibabelModel.Lemmas.C10_Glue5
 import NibabelModel.Lemmas.C10_FromHdr
+import NibabelModel.Lemmas.C10_Pub
 /-! Props/C10 — property theorems for C10 (binary headers are faithful to their bytes, byte order and
     repairs).  Part A: byte codec and record codec over EVERY tiling layout; part B: WrapStruct
     operations; part C: endianness guessing; part D: check batteries; part E: obligations over the
@@ -551,6 +552,225 @@ example : raisesBytes Gen.nifti1Cls Gen.nifti1 .le (List.replicate 348 0) = fals
 
 example : compat Gen.nifti2Cls Gen.nifti2 = true ∧ repairable Gen.nifti2Cls =
     ["sizeof_hdr", "bitpix", "pixdim", "pixdim", "vox_offset", "qform_code", "sform_code", "eol_check"] := by
+  decide +kernel
+
+/-! ### D-pub. the PUBLIC entry point `WrapStruct.check_fix(logger, error_level)` and the checking constructor
+
+  `wrapCheckFix` = run the whole battery with repair on the bytes, THEN log the reports in order and raise at
+  the first one with `problem_level and problem_level >= error_level` (`logRaise`; characterised by
+  `logRaise_spec` / `logRaise_none_iff` / `logRaise_mono` in Lemmas/C10_Pub).  The bytes component is what the
+  caller's object holds after the call — also when it raised. -/
+
+/-- a check's own repair never raises the level it reports -/
+theorem reportOf_fixOf_level_le (c : ClsSpec) (hc : c.ok = true) (k : CheckId)
+    (hx : k = .qform ∨ k = .sform → (0 : Int) ∈ c.xformCodes) (h : CF) :
+    (reportOf c k (fixOf c k h)).level ≤ (reportOf c k h).level := by
+  have hF : c.pixFmt.ok = true := by
+    simp only [ClsSpec.ok, Bool.and_eq_true] at hc; exact hc.1.1
+  by_cases hu : unfixable k = false
+  · rw [reportOf_fixOf_clean c hF k hx hu h]; exact Nat.zero_le _
+  · cases k <;> simp [unfixable] at hu
+    case datatype => exact Nat.le_refl _
+    case magic => exact Nat.le_refl _
+    case origin => exact Nat.le_refl _
+    case bitpix =>
+      cases h with
+      | mk sz dt bp qf pd mg vo q s eol org dim ver =>
+      simp only [fixOf, reportOf]
+      cases hd : dtItemsize c.dtTable dt with
+      | none => simp
+      | some n => simp only []; split <;> simp_all [Report.clean]
+    case offset =>
+      have h2 := (second_run_offset_bitpix c hc h).1
+      cases h with
+      | mk sz dt bp qf pd mg vo q s eol org dim ver =>
+      simp only [fixOf, reportOf] at h2 ⊢
+      by_cases h1 : (c.voxKind.decode vo).isZero = true
+      · simp [h1, Report.clean]
+      · by_cases h3 : stripNul mg = c.singleMagic ∧ (c.voxKind.decode vo).ltInt c.singleVoxOffset = true
+        · simp only [h1, h3, and_self, if_true, Bool.false_eq_true, if_false] at h2 ⊢
+          split
+          · simp [Report.clean]
+          · split
+            · simp_all
+            · split <;> simp [Report.clean]
+        · simp only [h1, h3, Bool.false_eq_true, if_false]
+          exact Nat.le_refl _
+
+
+/-- after the battery has run with repair, every check reports at most the level it reported before -/
+theorem second_run_levels_le (c : ClsSpec) (hc : c.ok = true) (hnd : c.checks.Nodup) (h : CF) :
+    ∀ k ∈ c.checks, (reportOf c k (fixAll c c.checks h)).level ≤ (reportOf c k h).level := by
+  intro k hk
+  rw [reportOf_fixAll_mem c k c.checks hnd hk]
+  apply reportOf_fixOf_level_le c hc
+  intro hq
+  simp only [ClsSpec.ok, Bool.and_eq_true, Bool.or_eq_true, Bool.not_eq_true', List.contains_eq_mem,
+    decide_eq_true_eq, Bool.or_eq_false_iff, decide_eq_false_iff_not] at hc
+  rcases hc.1.2 with hx | hx
+  · exact hx
+  · rcases hq with rfl | rfl
+    · exact absurd hk hx.1
+    · exact absurd hk hx.2
+
+
+set_option linter.unusedVariables false in
+/-- The public `hdr.check_fix(error_level=l1)` followed by `hdr.check_fix(error_level=l2)` — for ANY two error
+    levels, whether or not either call raised `HeaderDataError` — leaves the bytes the first call left: every
+    repair is applied before anything is raised. -/
+theorem wrapCheckFix_idempotent (c : ClsSpec) (L : Layout) (hc : compat c L = true) (e : Endian)
+    (bs : List Byte) (hl : bs.length = L.size) (hdef : raisesBytes c L e bs = false) (l1 l2 : Int) :
+    (wrapCheckFix c L e (wrapCheckFix c L e bs l1).bytes l2).bytes = (wrapCheckFix c L e bs l1).bytes :=
+  checkFixBytes_idempotent c L hc e bs hl hdef
+
+/-- …and so does every longer history of `check_fix` calls at arbitrary error levels on the same object. -/
+theorem history_stable (c : ClsSpec) (L : Layout) (hc : compat c L = true) (e : Endian)
+    (bs : List Byte) (hl : bs.length = L.size) (hdef : raisesBytes c L e bs = false) (l1 : Int)
+    (ls : List Int) :
+    ∀ r ∈ runHistory c L e (wrapCheckFix c L e bs l1).bytes ls, r.bytes = (wrapCheckFix c L e bs l1).bytes := by
+  induction ls with
+  | nil => intro r hr; cases hr
+  | cons l ls ih =>
+    intro r hr
+    have hid := wrapCheckFix_idempotent c L hc e bs hl hdef l1 l
+    simp only [runHistory, List.mem_cons] at hr
+    rcases hr with rfl | hr
+    · exact hid
+    · rw [hid] at hr; exact ih r hr
+
+/-- reports of a second run, as a map over the battery -/
+theorem second_reports (c : ClsSpec) (L : Layout) (hc : compat c L = true) (hnd : c.checks.Nodup)
+    (e : Endian) (bs : List Byte) (hl : bs.length = L.size) :
+    (checkFixBytes c L e bs).2 = c.checks.map (fun k => reportOf c k (readCF L (parse L e bs))) ∧
+    (checkFixBytes c L e (checkFixBytes c L e bs).1).2 =
+      c.checks.map (fun k => reportOf c k (fixAll c c.checks (readCF L (parse L e bs)))) := by
+  have h1 := checkFixBytes_parse c L hc e bs hl
+  have h2 := checkFixBytes_parse c L hc e _ h1.2.2
+  refine ⟨?_, ?_⟩
+  · rw [h1.2.1, runFix_snd c _ hnd]; rfl
+  · rw [h2.2.1, runFix_snd c _ hnd, h1.1, runFix_fst]; rfl
+
+/-- After a public `check_fix` at any level (raised or not), a re-check at level `l2` can raise only from a
+    check that has no repair (datatype, bitpix, magic, offset, origin); and if the first call did not raise,
+    a re-check at the same or a higher error level does not raise either (levels never grow through a repair). -/
+theorem wrapCheckFix_second_run (c : ClsSpec) (L : Layout) (hc : compat c L = true) (hcok : c.ok = true)
+    (hnd : c.checks.Nodup) (e : Endian) (bs : List Byte) (hl : bs.length = L.size) (l1 l2 : Int) :
+    (∀ i, (wrapCheckFix c L e (wrapCheckFix c L e bs l1).bytes l2).raised = some i →
+        ∃ k, c.checks[i]? = some k ∧ unfixable k = true) ∧
+    ((wrapCheckFix c L e bs l1).raised = none → l1 ≤ l2 →
+        (wrapCheckFix c L e (wrapCheckFix c L e bs l1).bytes l2).raised = none) := by
+  obtain ⟨hr1, hr2⟩ := second_reports c L hc hnd e bs hl
+  constructor
+  · intro i hi
+    have hs := logRaise_spec l2 (checkFixBytes c L e (checkFixBytes c L e bs).1).2
+    have hi' : (logRaise l2 (checkFixBytes c L e (checkFixBytes c L e bs).1).2).2 = some i := hi
+    rw [hi'] at hs
+    obtain ⟨hlt, hra, _, _⟩ := hs
+    rw [hr2] at hlt hra
+    simp only [List.length_map] at hlt
+    refine ⟨c.checks[i], by simp [hlt], ?_⟩
+    have hget : (c.checks.map (fun k => reportOf c k (fixAll c c.checks (readCF L (parse L e bs))))).getD i default
+        = reportOf c c.checks[i] (fixAll c c.checks (readCF L (parse L e bs))) := by
+      simp [List.getD_eq_getElem?_getD, hlt]
+    rw [hget] at hra
+    by_cases hu : unfixable c.checks[i] = true
+    · exact hu
+    · have := second_run_only_unfixable c hcok (readCF L (parse L e bs)) c.checks[i] (List.getElem_mem _)
+        (by simpa using hu)
+      rw [runFix_fst] at this
+      simp [Report.raisesAt, this] at hra
+  · intro hn hle
+    have hn' : (logRaise l1 (checkFixBytes c L e bs).2).2 = none := hn
+    show (logRaise l2 (checkFixBytes c L e (checkFixBytes c L e bs).1).2).2 = none
+    rw [logRaise_none_iff] at hn' ⊢
+    rw [hr1] at hn'
+    rw [hr2]
+    intro r hr
+    obtain ⟨k, hk, rfl⟩ := List.mem_map.mp hr
+    exact raisesAt_mono _ _ l1 l2 (second_run_levels_le c hcok hnd _ k hk) hle
+      (hn' _ (List.mem_map.mpr ⟨k, hk, rfl⟩))
+
+set_option linter.unusedVariables false in
+/-- A header that `check_only` finds clean is never altered by the public `check_fix`, never makes it raise —
+    at ANY error level, also 0 or negative — and the logger receives exactly the clean reports. -/
+theorem wrapCheckFix_clean (c : ClsSpec) (L : Layout) (hc : compat c L = true) (hnd : c.checks.Nodup)
+    (e : Endian) (bs : List Byte) (hl : bs.length = L.size) (hdef : raisesBytes c L e bs = false)
+    (hclean : ∀ r ∈ checkOnlyBytes c L e bs, r.level = 0) (lvl : Int) :
+    (wrapCheckFix c L e bs lvl).bytes = bs ∧ (wrapCheckFix c L e bs lvl).raised = none ∧
+    (wrapCheckFix c L e bs lvl).logged = checkOnlyBytes c L e bs := by
+  have hrep : (checkFixBytes c L e bs).2 = checkOnlyBytes c L e bs := by
+    show (runFix c c.checks (readCF L (parse L e bs))).2 = _
+    rw [runFix_snd c _ hnd]; rfl
+  have hno : (logRaise lvl (checkFixBytes c L e bs).2).2 = none := by
+    rw [logRaise_none_iff, hrep]
+    intro r hr
+    simp [Report.raisesAt, hclean r hr]
+  refine ⟨checkFixBytes_noop c L hc e bs hl hdef (by rw [hrep]; exact hclean), hno, ?_⟩
+  have hs := logRaise_spec lvl (checkFixBytes c L e bs).2
+  rw [hno] at hs
+  show (logRaise lvl (checkFixBytes c L e bs).2).1 = _
+  rw [hs.2, hrep]
+
+/-- The error level decides only WHEN the call raises, never what is repaired: the bytes are the same for all
+    levels, and lowering the level can only move the raising report earlier in the battery. -/
+theorem wrapCheckFix_level_monotone (c : ClsSpec) (L : Layout) (e : Endian) (bs : List Byte) (l1 l2 : Int)
+    (h : l1 ≤ l2) :
+    (wrapCheckFix c L e bs l1).bytes = (wrapCheckFix c L e bs l2).bytes ∧
+    ∀ i, (wrapCheckFix c L e bs l2).raised = some i → ∃ j, j ≤ i ∧ (wrapCheckFix c L e bs l1).raised = some j :=
+  ⟨rfl, fun i hi => logRaise_mono l1 l2 h _ i hi⟩
+
+/-- `Klass(bytes, check=True)`: a header the checking constructor returns is a fixed point of the battery, and
+    constructing again from its bytes with the same global error level succeeds with the same bytes. -/
+theorem ctorChecked_fixed_point (c : ClsSpec) (L : Layout) (hc : compat c L = true) (hcok : c.ok = true)
+    (hnd : c.checks.Nodup) (e : Endian) (bs : List Byte) (hl : bs.length = L.size)
+    (hdef : raisesBytes c L e bs = false) (glob : Int) (bb : List Byte)
+    (h : ctorChecked c L e bs glob = .ok bb) :
+    (checkFixBytes c L e bb).1 = bb ∧ ctorChecked c L e bb glob = .ok bb := by
+  unfold ctorChecked at h
+  cases hr : (wrapCheckFix c L e bs glob).raised with
+  | some i => simp [hr] at h
+  | none =>
+    simp only [hr, Except.ok.injEq] at h
+    have hid := wrapCheckFix_idempotent c L hc e bs hl hdef glob glob
+    have h2 := (wrapCheckFix_second_run c L hc hcok hnd e bs hl glob glob).2 hr (Int.le_refl _)
+    rw [h] at hid h2
+    refine ⟨hid, ?_⟩
+    unfold ctorChecked
+    rw [h2]; simp only []; exact congrArg _ hid
+
+/-- Why the two-phase structure matters (witness about a REJECTED variant, not about the code): logging /
+    raising each report as soon as its check has run stops at `_chk_offset` (battery index 6, level 40) for a
+    single-file NIfTI-1 header with vox_offset 10 and qform_code -1, leaves qform_code unrepaired, and a second
+    run changes the header again; the real two-phase battery is idempotent on the same record. -/
+theorem check_fix_failfast_counterexample :
+    let h : CF := ⟨348, 16, 32, fmt32.one, [fmt32.one, fmt32.one, fmt32.one], [110, 43, 49, 0], 0x41200000, -1, 0, [], [], [], 0⟩
+    (runFixEager Gen.nifti1Cls 40 Gen.nifti1Cls.checks h).2 = some 6 ∧
+    (runFixEager Gen.nifti1Cls 40 Gen.nifti1Cls.checks (runFixEager Gen.nifti1Cls 40 Gen.nifti1Cls.checks h).1).1
+      ≠ (runFixEager Gen.nifti1Cls 40 Gen.nifti1Cls.checks h).1 ∧
+    (runFix Gen.nifti1Cls Gen.nifti1Cls.checks (runFix Gen.nifti1Cls Gen.nifti1Cls.checks h).1).1
+      = (runFix Gen.nifti1Cls Gen.nifti1Cls.checks h).1 := by
+  decide +kernel
+
+
+/- non-vacuity: a single-file NIfTI-1 header with vox_offset 10 (level 40, repaired), qform_code -1 (level
+   30, repaired) and a stale bitpix (level 10, repaired): the call at error level 40 raises from battery index 6 with seven reports logged, both
+   repairs are in the bytes, and a second call at any level leaves them alone and does not raise. -/
+example :
+    let bs : List Byte := (checkFixBytes Gen.nifti1Cls Gen.nifti1 .le (List.replicate 348 0)).1
+    let bad := serialize Gen.nifti1 .le (setRaw Gen.nifti1 (setRaw Gen.nifti1 (setRaw Gen.nifti1 (setRaw Gen.nifti1
+      (parse Gen.nifti1 .le bs) "datatype" [16]) "magic" [110, 43, 49, 0]) "vox_offset" [0x41200000]) "qform_code" [65535])
+    bad.length = Gen.nifti1.size ∧ raisesBytes Gen.nifti1Cls Gen.nifti1 .le bad = false ∧
+    (wrapCheckFix Gen.nifti1Cls Gen.nifti1 .le bad 40).raised = some 6 ∧
+    ((wrapCheckFix Gen.nifti1Cls Gen.nifti1 .le bad 40).logged.map (·.level)) = [0, 0, 10, 0, 0, 0, 40] ∧
+    (wrapCheckFix Gen.nifti1Cls Gen.nifti1 .le bad 40).bytes ≠ bad ∧
+    (wrapCheckFix Gen.nifti1Cls Gen.nifti1 .le (wrapCheckFix Gen.nifti1Cls Gen.nifti1 .le bad 40).bytes 1).raised = none ∧
+    (match ctorChecked Gen.nifti1Cls Gen.nifti1 .le bad 41 with | .ok _ => true | .error _ => false) = true := by
+  decide +kernel
+
+example : compat Gen.nifti1Cls Gen.nifti1 = true ∧ Gen.nifti1Cls.ok = true ∧ Gen.nifti1Cls.checks.Nodup ∧
+    (∀ r ∈ checkOnlyBytes Gen.analyzeCls Gen.analyze .be
+      (checkFixBytes Gen.analyzeCls Gen.analyze .be (serialize Gen.analyze .be (setRaw Gen.analyze
+        (parse Gen.analyze .be (List.replicate 348 0)) "datatype" [16]))).1, r.level = 0) := by
   decide +kernel
 
 /-! ### D'. from_header (dim / pixdim part only; the rest is checked by the oracle on the real code) -/
